@@ -226,6 +226,41 @@ pub fn big_families() -> Vec<(String, Vec<u8>)> {
     }
     m[6..8].copy_from_slice(&n.to_be_bytes());
     out.push(("label fan-out: thousands of 12-byte records each naming a 127-label name through a pointer".to_string(), m));
+    // (b2) chain fan-in: a chain of label-free backward pointers as long as the 14-bit offset allows,
+    // and as many later names as fit, each pointing at the head of the chain (work per name is the
+    // chain length; anything worse than that per name shows as seconds)
+    for (hops, what) in [(8000usize, "A records whose owner points at the chain head"), (4000, "RP records (two names each) pointing at the chain head")] {
+        let mut m = header(0x8000, [0, 0, 0, 0]);
+        m.extend_from_slice(&[0, 0, 10, 0, 1, 0, 0, 0, 1]);
+        let rdlen = 3 + 2 * hops;
+        m.extend_from_slice(&(rdlen as u16).to_be_bytes());
+        let mut prev = m.len();
+        m.extend_from_slice(&[1, b'f', 0]);
+        for _ in 0..hops {
+            let here = m.len();
+            m.extend_from_slice(&[0xc0 | (prev >> 8) as u8, prev as u8]);
+            prev = here;
+        }
+        let head = [0xc0 | (prev >> 8) as u8, prev as u8];
+        let mut n = 1u16;
+        if hops == 8000 {
+            while m.len() + 16 <= 65535 {
+                m.extend_from_slice(&head);
+                m.extend_from_slice(&[0, 1, 0, 1, 0, 0, 0, 1, 0, 4, 1, 2, 3, 4]);
+                n += 1;
+            }
+        } else {
+            while m.len() + 18 <= 65535 {
+                m.extend_from_slice(&head);
+                m.extend_from_slice(&[0, 17, 0, 1, 0, 0, 0, 1, 0, 4]);
+                m.extend_from_slice(&head);
+                m.extend_from_slice(&head);
+                n += 1;
+            }
+        }
+        m[6..8].copy_from_slice(&n.to_be_bytes());
+        out.push((format!("chain fan-in: {} label-free pointer hops, then {} {}", hops, n - 1, what), m));
+    }
     // (c) maximal counts with minimal records
     let mut m = header(0x8000, [0, 0, 0, 0]);
     let mut n = 0u16;
@@ -534,6 +569,25 @@ pub fn enumerate_inputs(ctx: &Ctx, visit: Visit, shrink: usize) {
             total.fetch_add(n, std::sync::atomic::Ordering::Relaxed);
         });
         ctx.space(&format!("R6: a record of each of {} TYPE codes x 6 classes x {} generic RDATA bodies (zeros of length 0..=10, a short name plus 0..=4 bytes, ff.., pointers)", codes.len(), bodies.len()), total.load(std::sync::atomic::Ordering::Relaxed), "complete");
+    }
+    // R8: names made of labels that DNS software attaches a meaning to
+    {
+        let names = gen::dictionary_names(3);
+        let chunks: Vec<&[RefName]> = names.chunks(256).collect();
+        par_shards(ctx, &chunks, |ns, t: &mut Tally| {
+            for n in ns.iter() {
+                if !n.is_wire_valid() && !n.0.is_empty() {
+                    continue;
+                }
+                let mut p = RefPacket { id: 0x8888, flags: F_QR | F_AA, ..Default::default() };
+                p.questions.push(RefQ { name: n.clone(), qtype: 12, qclass: 1, unicast: false });
+                p.answers.push(RefRR { name: n.clone(), class: 1, cache_flush: false, ttl: 5, rdata: gen::rdata_with_names(12, &[n.clone()]) });
+                p.additional.push(RefRR { name: RefName::txt("t.example"), class: 1, cache_flush: true, ttl: 6, rdata: gen::rdata_with_names(33, &[n.clone()]) });
+                visit(&p.encode(0), t);
+                visit(&p.encode_compressed(0, true), t);
+            }
+        });
+        ctx.space("R8: dictionary names: every sequence of <= 3 labels over 32 labels with a conventional meaning (local, arpa, in-addr, ip6, _tcp, _udp, _services, _dns-sd, _sub, localhost, xn--..., *, digits) plus 20 well-known full names, as question, owner, PTR and SRV target, plain and compressed", names.len() as u64 * 2, "complete");
     }
     // R7: names that take many decoding steps, and reference encodings of the full size sweep
     {
